@@ -237,6 +237,15 @@ func c19r3(p *Program, r *Report) {
 	}
 	var sites []prodSite
 	prodOf := func(fn *FuncInfo, e ast.Expr, isRune func(*ast.Ident) bool) (prodSite, bool) {
+		plus := false
+		// byte(R - 'c') + 10: the offset added after the conversion
+		if b, isB := ast.Unparen(e).(*ast.BinaryExpr); isB && b.Op == token.ADD {
+			if k, isK := constInt(info, b.Y); isK && k == 10 {
+				plus, e = true, b.X
+			} else if k, isK := constInt(info, b.X); isK && k == 10 {
+				plus, e = true, b.Y
+			}
+		}
 		c, ok := ast.Unparen(e).(*ast.CallExpr)
 		if !ok || len(c.Args) != 1 {
 			return prodSite{}, false
@@ -245,11 +254,10 @@ func c19r3(p *Program, r *Report) {
 			return prodSite{}, false
 		}
 		x := ast.Unparen(c.Args[0])
-		plus := false
 		if b, isB := x.(*ast.BinaryExpr); isB && b.Op == token.ADD {
-			if k, isK := constInt(info, b.Y); isK && k == 10 {
+			if k, isK := constInt(info, b.Y); isK && k == 10 && !plus {
 				plus, x = true, ast.Unparen(b.X)
-			} else if k, isK := constInt(info, b.X); isK && k == 10 {
+			} else if k, isK := constInt(info, b.X); isK && k == 10 && !plus {
 				plus, x = true, ast.Unparen(b.Y)
 			}
 		}
